@@ -52,7 +52,7 @@ func takeFiles() []map[string]string {
 
 // Run is the check.
 func Run(c *core.Ctx) {
-	c.Note("rule", fmt.Sprintf("in-process: for a synthetic interpreter binary of length L and filler F, CLIPacker.Pack() then RunPackedBinary() on the packed file with the package's args/exit/stderr indirections set by VerifSetOS; "+
+	c.Note("rule", fmt.Sprintf("in-process: for a synthetic interpreter binary of length L and filler F, CLIPacker.Pack() (the project directory given in 6 spellings: cleaned, trailing slash, /./ segment, double slash, trailing /., relative with ./) then RunPackedBinary() on the packed file with the package's args/exit/stderr indirections set by VerifSetOS; "+
 		"L = EVERY value in [0,%d] (two periods of both scan geometries: %d-byte blocks, %d-byte overlap after a block holding '#') plus k*%d+d and k*%d+d for k=3..40, d in [-40,40]; "+
 		"F = one stream per filler family: zeros, all '#', random without '#', '#' at strides 61/4000/4096, a single '#' at distance {1,2,17,28,29,2048,4096} from the end of block 0/1, "+
 		"a partial marker (%q or %q) ending g bytes before the marker for g in {0,1,2,11,12,16,17,28}, back-to-back partial markers at 3 phases, sparse partial markers on a '#'-free random background, "+
@@ -132,6 +132,24 @@ func inprocCase(c *core.Ctx, work string, fo *forest, f family, idx, L int) {
 		c.Inconclusive("cannot write the project tree: "+err.Error(), f.stream, idx, nil)
 		return
 	}
+	// the -dir value as a user may type it: the same directory in spellings
+	// that are not in cleaned form
+	dirSpelling := "clean"
+	switch idx % 7 {
+	case 2:
+		dir, dirSpelling = dir+string(filepath.Separator), "trailing-slash"
+	case 3:
+		dir, dirSpelling = filepath.Dir(dir)+"/./"+filepath.Base(dir), "dot-segment"
+	case 4:
+		dir, dirSpelling = filepath.Dir(dir)+"//"+filepath.Base(dir), "double-slash"
+	case 5:
+		dir, dirSpelling = dir+"/.", "trailing-dot"
+	case 6:
+		if rel, rerr := filepath.Rel(mustGetwd(), dir); rerr == nil {
+			dir, dirSpelling = "./"+rel, "relative-dot-slash"
+		}
+	}
+	c.Event("dir-spelling."+dirSpelling, 1)
 	src := filepath.Join(work, "source.bin")
 	tgt := filepath.Join(work, "packed.bin")
 	if err := os.WriteFile(src, filler, 0o755); err != nil {
@@ -142,7 +160,7 @@ func inprocCase(c *core.Ctx, work string, fo *forest, f family, idx, L int) {
 	rebuild := idx%3 == 1
 	detail := func(extra map[string]interface{}) map[string]interface{} {
 		d := map[string]interface{}{"family": f.stream, "L": L, "tree": kind, "entry": prog.src, "expected_code": prog.code,
-			"filler_tail": fmt.Sprintf("%q", tail(filler, 48))}
+			"filler_tail": fmt.Sprintf("%q", tail(filler, 48)), "dir": dir}
 		for k, v := range extra {
 			d[k] = v
 		}
@@ -293,4 +311,12 @@ func staleArchive() []byte {
 		staleZip = buf.Bytes()
 	})
 	return staleZip
+}
+
+func mustGetwd() string {
+	wd, err := os.Getwd()
+	if err != nil {
+		return "/"
+	}
+	return wd
 }
